@@ -634,6 +634,17 @@ def oracle_c05(case, lines, runner=None):
                                           f'{r.cond_form.get(lab)}) never fired although {len(done)} of {len(ops)} operands were processed'
                                           + (' (an empty operand list triggers immediately)' if not ops else ''),
                                   'signature': 'c05-never-fired'}); break
+            # "if an operand fails before the condition is met the condition fails with that operand's exception": the run was
+            # cut short by an exception that is not the failure of any event of the program, while this still pending,
+            # untriggered condition had an operand that was processed as a failure - forwarding the failure itself raised
+            if case.mode == 'step' and not ext and lab not in nested and getattr(c, '_value', None) is not None and not c.triggered:
+                xs = [l.split(' ')[1] for l in lines if l.startswith('X ')]
+                failed_types = {type(ev._value).__name__ for ev in r.keep if getattr(ev, '_ok', True) is False}
+                bad = [e for e in ops if r.processed.get(r.lab(e)) is not None and not r.processed[r.lab(e)][2]]
+                if bad and xs and xs[-1] not in failed_types:
+                    fails.append({'what': f'{kind} e{lab}: operand e{r.lab(bad[0])} failed with {type(bad[0]._value).__name__} before the condition was met; '
+                                          f'the condition did not fail with that exception - the run raised {xs[-1]}, which no event of the program failed with',
+                                  'signature': 'c05-failure-forwarding-raised'}); break
             continue
         pseq, pnow, pok, pval, pkeys = p
         # instants at which the operands were processed (operands processed before construction count from construction)
